@@ -1,7 +1,9 @@
 //! vh - conformance harness binding the TLA+ specifications under /verif/specs to the real library.
 #![allow(dead_code)]
 mod util;
+mod c27;
 mod c29;
+mod proj;
 
 fn main() {
     let argv: Vec<String> = std::env::args().skip(1).collect();
@@ -10,6 +12,7 @@ fn main() {
     }
     let args = util::Args::parse(&argv[1..]);
     match argv[0].as_str() {
+        "c27" => c27::main(&args),
         "c29" => c29::main(&args),
         other => util::tool_error(&format!("unknown subcommand {other}")),
     }
